@@ -249,7 +249,9 @@ inline GPoly drawPoly(int res, int maxCells, bool allowHoles, int forceShape = -
             break;
         }
         case 8: {  // next to a pole, at any distance from it (1e-3 .. 0.09 rad, log-uniform); the polygon never contains the pole
-            c.lat = (ri(0, 1) ? 1 : -1) * (gen::PI / 2 - gen::logU(1e-3, 0.09));
+            // half of the time within 0.2 .. 8 cell widths of the pole at the fill resolution (the cells whose bounding box is clamped at the pole)
+            double dist = rpick({1, 1}) ? gen::logU(1e-3, 0.09) : std::min(0.09, gen::logU(0.2, 8.0) * gen::cellWidth(res));
+            c.lat = (ri(0, 1) ? 1 : -1) * (gen::PI / 2 - dist);
             c.lng = (2 * runit() - 1) * gen::PI;
             break;
         }
@@ -290,7 +292,7 @@ inline GPoly drawPoly(int res, int maxCells, bool allowHoles, int forceShape = -
     }
     double R = Rcells * w;
     // keep the polygon well inside the lat/lng chart: no pole, total longitude span < pi
-    double maxR = std::min((g.loc == 8 ? gen::PI / 2 - 3e-4 : 1.5) - fabs(c.lat), 1.2 * std::cos(c.lat)) * 0.8;
+    double maxR = std::min((g.loc == 8 ? gen::PI / 2 - std::min(3e-4, 0.1 * (gen::PI / 2 - fabs(c.lat))) : 1.5) - fabs(c.lat), 1.2 * std::cos(c.lat)) * 0.8;
     if (R > maxR) R = maxR;
     int n = g.shape == 5 ? ri(3, 4) : g.shape == 2 ? ri(3, 8) : ri(3, 14);
     int nholes = (allowHoles && n >= 6 && g.shape != 2 && g.shape != 5) ? rpick({3, 2, 1, 1}) : 0;
